@@ -29,7 +29,7 @@ Proof.
     intros o m [].
   - destruct (vdi_read_correct v Hbs off n Hwf ltac:(lia) ltac:(lia)) as (p & Hp & Hs).
     exists p. split; [exact Hp|]. rewrite Z.min_l in Hs by lia. split; [exact Hs|].
-    intros o m Hin. unfold vdi_read in Hp. rewrite Z.min_l in Hp by lia.
+    intros o m Hin _. unfold vdi_read in Hp. rewrite Z.min_l in Hp by lia.
     destruct (walk_parent_range (v_bs v) 1 (vdi_lookup v) (vdi_emit v) Hbs ltac:(lia)
                 (vdi_emit_parent_range v) (vdi_fuel n) off n p o m Hoff Hp Hin) as (H1 & H2 & H3 & _ & _).
     rewrite !Z.mod_1_r. lia.
@@ -115,7 +115,7 @@ Proof.
   - destruct (hds_read_correct h Hcs off n Hwf ltac:(lia) ltac:(lia)) as (p & T & Hp & HT & Hs).
     assert (T = n) by lia. subst T.
     exists p. split; [exact Hp|]. split; [exact Hs|].
-    intros o m Hin. unfold hds_read in Hp.
+    intros o m Hin _. unfold hds_read in Hp.
     destruct (iter_runs h (hds_fuel n) off n None) as [rs| |] eqn:Hit; try discriminate.
     cbn [bind] in Hp. injection Hp as <-.
     pose proof (iter_runs_sizes_pos h Hcs _ _ _ _ _ Hit I) as Hnn.
@@ -170,7 +170,7 @@ Proof.
               (n / x_ss x) _ Hc Hs Hend ltac:(unfold vhdx_fuel; lia)) as [p Hp].
   exists p. split; [exact Hp|]. split.
   - rewrite (vhdx_read_sectors_sound x Hg Hst _ _ _ p Hnp Hs Hp). f_equal. f_equal; lia.
-  - intros o m Hin. exfalso.
+  - intros o m Hin _. exfalso.
     (* no parent reference can occur without a parent *)
     clear -Hp Hin Hnp Hspb. unfold vhdx_read_sectors in Hp.
     revert Hp Hin. generalize (vhdx_fuel (n / x_ss x)) as fuel. generalize (off / x_ss x) as a, (n / x_ss x) as b.
@@ -200,4 +200,45 @@ Proof.
   intros x (Hg & Hst & <- & <- & Hsm & [[Hp Hwf]|Hwf]).
   - now apply vhdx_layer_ok.
   - now apply vhdx_base_layer_ok.
+Qed.
+
+(* ---------------- QCOW2 (backing files) ---------------- *)
+From DH Require Model.Qcow2 Proofs.Qcow2 Proofs.Qcow2Total Spec.Qcow2.
+
+Definition qcow2_layer (im : Model.Qcow2.image) : layer :=
+  {| l_read := fun off n => Model.Qcow2.qcow2_read im (S (Z.to_nat n)) off n; l_src := Model.Qcow2.guest_src im |}.
+
+Lemma qcow2_parent_same im o o' : Model.Qcow2.guest_src im o = Parent o' -> o' = o.
+Proof.
+  unfold Model.Qcow2.guest_src, Spec.Qcow2.guest_src, Spec.Qcow2.unallocated, Spec.Qcow2.stored. cbv zeta.
+  repeat match goal with
+  | |- context [match ?x with _ => _ end] => destruct x
+  end; intros H; try discriminate; try (injection H as <-; reflexivity).
+Qed.
+
+Theorem qcow2_layer_ok (im : Model.Qcow2.image) :
+  Proofs.Qcow2.wf_image im -> Spec.Qcow2.conformant (Model.Qcow2.spec_of im) (Model.Qcow2.size_of im) ->
+  layer_ok (Model.Qcow2.size_of im) 1 (qcow2_layer im).
+Proof.
+  intros Hwf Hc. apply exact_reader_layer_ok; [apply qcow2_parent_same|].
+  intros off n Hoff Hn Hfit. cbn [qcow2_layer l_read l_src].
+  destruct (Z.eq_dec n 0) as [->|Hn0].
+  - exists []. split; [|reflexivity].
+    unfold Model.Qcow2.qcow2_read, Model.Qcow2.read_runs. cbn [Z.to_nat].
+    replace (Z.min 0 (Model.Qcow2.size_of im - off)) with 0 by lia. reflexivity.
+  - destruct (Proofs.Qcow2Total.qcow2_read_total im off n Hwf Hc ltac:(lia) ltac:(lia)) as (p & Hp & Hs).
+    cbv zeta in *. replace (Z.min n (Model.Qcow2.size_of im - off)) with n in * by lia.
+    exists p. split; assumption.
+Qed.
+
+Theorem qcow2_chain_correct size (ims : list Model.Qcow2.image) :
+  Forall (fun im => Proofs.Qcow2.wf_image im /\
+                    Spec.Qcow2.conformant (Model.Qcow2.spec_of im) (Model.Qcow2.size_of im) /\
+                    Model.Qcow2.size_of im = size) ims ->
+  forall off n, 0 <= off -> 0 <= n -> off + n <= size ->
+  chain_read (map qcow2_layer ims) 0 off n = Ok (map (chain_src (map qcow2_layer ims) 0) (zseq off n)).
+Proof.
+  intros Hall off n Hoff Hn Hfit. apply (chain_read_correct size 1); try assumption; try apply Z.mod_1_r.
+  apply Forall_map. eapply Forall_impl; [|exact Hall].
+  intros im (Hwf & Hc & <-). now apply qcow2_layer_ok.
 Qed.
